@@ -153,6 +153,7 @@ class GenericGraphsAdapter(GenericQuadsBaseAdapter):
 
     @override
     def triple(self, terms: Iterable[Any]) -> Quad:
+        self.graph  # noqa: B018
         return Quad(*chain(terms, [self._graph_id]))
 
     @override
